@@ -222,7 +222,7 @@ def exact_matrix_part(rep, tier, tags):
     rep.notes['exact_matrix'] = {'vectors': len(obs), 'matrix_equal_to_a_specification_behaviour': n_equal, 'of_which_only_via_Dev_PadBitsWhenAligned': n_dev}
 
 
-def validate_all_branches(rep, obs):
+def validate_all_branches(rep, obs, module='Trace_Segno', tag='segno'):
     """like common.validate_observations, but keeps every verdict line per observation (Trace_Segno branches on deviations)"""
     import json
     import os
@@ -234,10 +234,10 @@ def validate_all_branches(rep, obs):
     buckets = [obs[k::shards] for k in range(shards)]
 
     def run(k):
-        path = os.path.join(wd, f'segno_{k}.json')
+        path = os.path.join(wd, f'{tag}_{k}.json')
         with open(path, 'w') as f:
             json.dump([{kk: vv for kk, vv in o.items() if not kk.startswith('_')} for o in buckets[k]], f, separators=(',', ':'))
-        out, st = common.run_tlc('Trace_Segno', env={'TRACE_FILE': path}, workers=1, metadir=os.path.join(wd, f'meta_segno_{k}'), timeout=3000)
+        out, st = common.run_tlc(module, env={'TRACE_FILE': path}, workers=1, metadir=os.path.join(wd, f'meta_{tag}_{k}'), timeout=3000)
         if not common.tlc_ok(out, st):
             with open(os.path.join(wd, f'segno_{k}.out'), 'w') as f:
                 f.write(out)
@@ -249,7 +249,7 @@ def validate_all_branches(rep, obs):
             if v not in lst:
                 lst.append(v)
         if set(by) != {o['tid'] for o in buckets[k]}:
-            raise common.MachineryError(f'Trace_Segno shard {k}: verdicts for {len(by)} of {len(buckets[k])} observations')
+            raise common.MachineryError(f'{module} shard {k}: verdicts for {len(by)} of {len(buckets[k])} observations')
         return by, st
     allv = {}
     stats = {'states': 0, 'transitions': 0, 'wall_s': 0.0, 'runs': len(buckets)}
@@ -261,8 +261,70 @@ def validate_all_branches(rep, obs):
     return allv, stats
 
 
+def exact_matrix_multipart(rep, tier, tags):
+    """SegnoMP.tla: the pipeline machine for multi-part content, requested modes and ECI; design run + exact-matrix conformance"""
+    cfg = 'SegnoMP_quick.cfg' if tier == 'quick' else 'SegnoMP_thorough.cfg'
+    out, st = common.run_tlc('MC_SegnoMP', cfg=cfg, workers=common.NCPU, timeout=3000, xmx='12g')
+    rep.add_design('MC_SegnoMP', cfg, out, st, 'pipeline machine for multi-part content / requested mode / ECI: invariants C01_PayloadMP, C01_EciMP, '
+                   'C04_SmallestMP, C05_LevelMP, C13_TailMP evaluated with the reference decoder')
+    vecs = common.parse_vectors(out)
+    seen = {}
+    for v in vecs:
+        a = v['args']
+        key = (json_key(v['parts']), a['mode'], a['version'], a['error'], a['micro'], a['eci'], a['boost'])
+        seen.setdefault(key, v)
+    common.use_repo()
+    obs = []
+    for key, v in sorted(seen.items()):
+        a = v['args']
+        content = [bytes(p['bytes']) if p['enc'] == 'l1' else bytes(p['bytes']).decode('utf-8') for p in v['parts']]
+        kw = {'boost_error': a['boost']}
+        if a['version'] != 99:
+            kw['version'] = T.version_name(a['version'])
+        if a['error'] != '-':
+            kw['error'] = a['error']
+        if a['micro'] != 'none':
+            kw['micro'] = a['micro'] == 'yes'
+        if a['mode'] != 'none':
+            kw['mode'] = a['mode']
+        if a['eci']:
+            kw['eci'] = True
+        c = call('make', content if len(content) > 1 else content[0], **kw)
+        outcome, res, _ = symobs.execute(c)
+        obs.append({'_call': c, 'parts': v['parts'], 'mode': a['mode'], 'version': a['version'], 'error': a['error'], 'micro': a['micro'], 'eci': a['eci'],
+                    'boost': a['boost'], 'status': outcome['status'] if outcome['status'] == 'ok' else ('ValueError' if 'ValueError' in outcome.get('mro', []) else outcome.get('exc', 'error')),
+                    'matrix': res['matrix'] if res else [], '_cost': 1})
+    rep.evaluations += len(obs)
+    verdicts, st = validate_all_branches(rep, obs, module='Trace_SegnoMP', tag='segnomp')
+    rep.add_trace_stats(st, len(obs))
+    n_equal = n_dev = 0
+    for o in obs:
+        branches = verdicts.get(o['tid'], [])
+        good = [b for b in branches if not b['fails']]
+        if good:
+            n_equal += 1
+            n_dev += all(b['facts']['dev'] for b in good)
+            rep.keys.add(('XMP', json_key(o['parts']), o['mode'], o['version'], o['error'], o['micro'], o['eci']))
+            continue
+        b = branches[0] if branches else {'fails': [['SPEC', 'no_verdict']], 'facts': {}}
+        mine = sorted(c for (p, c) in b['fails'] if p in tags)
+        if mine:
+            rep.violation({'call': o['_call'], 'failing_clauses': mine, 'props': sorted(tags), 'all_fails': b['fails']},
+                          f"{engine.brief_call(o['_call'])}: the matrix differs from every behaviour of SegnoMP.tla; fails {b['fails']}")
+        else:
+            rep.notes.setdefault('exact_matrix_mismatches_attributed_to_other_properties', []).append(
+                {'call': engine.brief_call(o['_call']), 'fails': b['fails']})
+    rep.notes['exact_matrix_multipart'] = {'vectors': len(obs), 'matrix_equal_to_a_specification_behaviour': n_equal, 'of_which_only_via_Dev_PadBitsWhenAligned': n_dev}
+
+
+def json_key(x):
+    import json
+    return json.dumps(x, sort_keys=True)
+
+
 def run_c01(rep, tier):
     exact_matrix_part(rep, tier, {'C01'})
+    exact_matrix_multipart(rep, tier, {'C01'})
     calls = gen_c01(tier, common.seed())
     rep.evaluations += len(calls)
     obs = symobs.observe_many(calls, props=['C01'])
